@@ -377,6 +377,37 @@ func addHTTP(m map[string]Intrinsic) {
 		}
 		return vm.callValue(s, []Value{args[0]}, nil)
 	}
+	// --- CONNECT tunnel plumbing: TLS and request framing are outside; the request loop of
+	// handleCONNECT is driven by a harness-provided request source ---
+	m["crypto/tls.Server"] = func(vm *VM, fn *ssa.Function, args []Value) Value {
+		return vm.newStruct(vm.typeByName("crypto/tls", "Conn"), "tls.Conn")
+	}
+	m["(*crypto/tls.Conn).Handshake"] = func(vm *VM, fn *ssa.Function, args []Value) Value { return IfaceV{} }
+	m["(*crypto/tls.Conn).Close"] = func(vm *VM, fn *ssa.Function, args []Value) Value {
+		vm.bumpMarker("tlsconn.close")
+		return IfaceV{}
+	}
+	m["(*crypto/tls.Conn).Write"] = func(vm *VM, fn *ssa.Function, args []Value) Value {
+		return TupleV{intV(args[1].(SliceV).Len), IfaceV{}}
+	}
+	m["bufio.NewReader"] = func(vm *VM, fn *ssa.Function, args []Value) Value {
+		return vm.newStruct(vm.typeByName("bufio", "Reader"), "bufio.Reader")
+	}
+	m["vocab.vSetRequestSource"] = func(vm *VM, fn *ssa.Function, args []Value) Value {
+		vm.P.env["reqsource"] = args[0]
+		return nil
+	}
+	m["net/http.ReadRequest"] = func(vm *VM, fn *ssa.Function, args []Value) Value {
+		src, ok := vm.P.env["reqsource"]
+		if !ok {
+			return TupleV{PtrV{}, vm.globalIface("io", "EOF")}
+		}
+		return vm.callValue(src, nil, nil)
+	}
+	m["(net/http.noBody).Read"] = func(vm *VM, fn *ssa.Function, args []Value) Value {
+		return TupleV{intV(0), vm.globalIface("io", "EOF")}
+	}
+	m["(net/http.noBody).Close"] = func(vm *VM, fn *ssa.Function, args []Value) Value { return IfaceV{} }
 	m["(*bufio.Writer).Flush"] = func(vm *VM, fn *ssa.Function, args []Value) Value { return IfaceV{} }
 
 	// --- crypto / db stubs (C20, C11) ---
@@ -535,16 +566,53 @@ func addHTTP(m map[string]Intrinsic) {
 		return IfaceV{}
 	}
 
-	// --- singleflight (sequential contract): the caller is the leader, nobody joins ---
+	// --- singleflight.Group.Do, documented contract (x/sync v0.19.0), sequentialised:
+	// mode 0: the caller is the leader: fn runs once, its result is remembered for the key;
+	//         `shared` is what the harness says (true when followers joined while it ran);
+	// mode 1: the caller is a follower that joined while the leader's fn was running: it
+	//         receives the remembered (v, err) and shared=true, fn is not run.
+	// An optional hook runs after fn returned and before Do returns (the window in which other
+	// requests may touch the cache).
 	m["(*golang.org/x/sync/singleflight.Group).Do"] = func(vm *VM, fn *ssa.Function, args []Value) Value {
 		key := args[1]
 		vm.P.env["singleflight.lastkey"] = key
+		mode := 0
+		if v, ok := vm.P.env["singleflight.mode"]; ok {
+			mode = int(v.(*Term).Int())
+		}
+		if mode == 1 {
+			prev, ok := vm.P.env["singleflight.result"]
+			if !ok {
+				panic(vm.fail("singleflight follower without a leader result"))
+			}
+			r := prev.(TupleV)
+			return TupleV{r[0], r[1], tTrue}
+		}
+		vm.lockEventLog("callback", nil, true)
 		r := vm.callValue(args[2], nil, nil).(TupleV)
+		vm.P.env["singleflight.result"] = r
+		if h, ok := vm.P.env["singleflight.after"]; ok {
+			vm.callValue(h, nil, nil)
+		}
 		shared := tFalse
 		if v, ok := vm.P.env["singleflight.shared"]; ok {
 			shared = v.(*Term)
 		}
 		return TupleV{r[0], r[1], shared}
+	}
+	m["vocab.vSingleflightMode"] = func(vm *VM, fn *ssa.Function, args []Value) Value {
+		vm.P.env["singleflight.mode"] = args[0]
+		return nil
+	}
+	m["vocab.vSingleflightAfter"] = func(vm *VM, fn *ssa.Function, args []Value) Value {
+		vm.P.env["singleflight.after"] = args[0]
+		return nil
+	}
+	m["vocab.vSingleflightResult"] = func(vm *VM, fn *ssa.Function, args []Value) Value {
+		if r, ok := vm.P.env["singleflight.result"]; ok {
+			return r.(TupleV)[0]
+		}
+		return IfaceV{}
 	}
 	m["vocab.vSingleflightShared"] = func(vm *VM, fn *ssa.Function, args []Value) Value {
 		vm.P.env["singleflight.shared"] = args[0]
